@@ -341,6 +341,12 @@ theorem normInf_total {v : Array K} (h : 1 ≤ v.size) : ∃ r, Vec.normInf v = 
   rw [this]
   exact ⟨_, rfl⟩
 
+/-- over a field with lawful equality the NaN test of `norm_inf` (repair D14: `|x| != |x|`) never fires -/
+theorem normInf_step_eq (g : K → K) :
+    (fun (r x : K) => if ScalarExt.lt r (g x) || !(g x == g x) then g x else r)
+      = (fun r x => if ScalarExt.lt r (g x) then g x else r) := by
+  funext r x; simp
+
 theorem foldl_zero (g : K → K) (h0 : g 0 = 0) (l : List K) (hl : ∀ x ∈ l, x = 0) :
     l.foldl (fun r x => if ScalarExt.lt r (g x) then g x else r) 0 = 0 := by
   induction l with
@@ -358,7 +364,7 @@ theorem normInf_zero {n : Nat} (hn : 1 ≤ n) (habs0 : Transc.fabs (0 : K) = 0) 
   unfold Vec.normInf Vec.normInfBy
   have : (Array.replicate n (0 : K))[0]? = some 0 := by simp [show 0 < n from hn]
   rw [this]
-  simp only [habs0]
+  simp only [habs0, normInf_step_eq]
   congr 1
   rw [← Array.foldl_toList]
   apply foldl_zero _ habs0
